@@ -340,6 +340,22 @@ def compare(case, a, b):
         if len(fa) >= 1 and isinstance(fa[0], float) and isinstance(fb[0], float):
             return None if abs(fa[0] - fb[0]) <= tol else "distance differs: %r vs %r" % (fa[0], fb[0])
         return None if fa == fb else "outputs differ"
+    if k == "dist" and isinstance(oa, list) and isinstance(ob, list) and len(oa) == len(ob) >= 3 \
+            and isinstance(oa[0], float) and isinstance(ob[0], float) \
+            and all(isinstance(x, list) and len(x) == 3 for x in (oa[1], oa[2], ob[1], ob[2])):
+        # non-unique optimum (e.g. a segment parallel to a triangle's plane on a lattice scene): which of several
+        # equally close point pairs is returned is decided by last-bit differences; both engines must agree on the
+        # distance and each must return a pair that realises it
+        da, db = oa[0], ob[0]
+        tol_d = 1e-9 * max(1.0, abs(da), abs(db))
+        if case["fn"] in ("line_to_circle", "line_segment_to_circle", "disk_to_disk", "point_to_ellipsoid"):
+            tol_d = 1e-6 * max(1.0, abs(da))
+        if abs(da - db) <= tol_d:
+            ra = abs(float(np.linalg.norm(np.array(oa[1]) - np.array(oa[2]))) - da)
+            rb = abs(float(np.linalg.norm(np.array(ob[1]) - np.array(ob[2]))) - db)
+            same_pts = all(abs(x - y) <= 1e-9 * max(1.0, abs(x), abs(y)) for x, y in zip(oa[1] + oa[2], ob[1] + ob[2]))
+            if same_pts or (ra <= 1e-6 * max(1.0, da) and rb <= 1e-6 * max(1.0, db)):
+                return None
     fa, fb = _flat(oa, []), _flat(ob, [])
     if len(fa) != len(fb):
         return "output shapes differ: %d vs %d values" % (len(fa), len(fb))
